@@ -205,7 +205,7 @@ def run_threads(cfg, preempt=None, opcode=False):
         if kind == "pool":
             for _ in range(cfg.get("nc", 1)):
                 consumers.append(ctl.spawn(worker, "worker").idx)
-        status = ctl.run(timeout=cfg.get("timeout", 30.0))
+        status = ctl.run(timeout=cfg.get("timeout", 120.0))
         final = {"acq": obs._acq, "faulted": obs._flt, "qlen": len(obs._q)}
 
     # threads created by the scheduler under test are consumers, in creation order
